@@ -185,11 +185,25 @@ def tasks(tier):
     return out
 
 
-def run_case(task, steps, code, withexit, sw=None, Tcase=None):
+class ShortWrites(Chooser):
+    """Environment answers 'the kernel took only part of the payload' as long as the budget lasts."""
+    __slots__ = ()
+
+    def choose(self, n, label=''):
+        if label == 'short-write':
+            self.trace.append((n, 1))
+            self.labels.append(label)
+            return 1
+        return Chooser.choose(self, n, label)
+
+
+def run_case(task, steps, code, withexit, sw=None, Tcase=None, short=False):
     Tcase = T if Tcase is None else Tcase
     E.install()
     prun = sys.modules['pexpect.run']
-    env = E.Env(Chooser(()))
+    env = E.Env(ShortWrites(()) if short else Chooser(()))
+    if short:
+        env.short_writes = 2
     box = {}
     viol = None
     obs = {}
@@ -231,6 +245,8 @@ def run_case(task, steps, code, withexit, sw=None, Tcase=None):
             if withexit:
                 out, status = out
             obs = dict(out=out, status=status, received=peer.input(), calls=rec.calls, emitted=emitted)
+            if short:
+                obs['short_writes_done'] = env.short_writes_done
             if type(out) is not type(text):
                 viol = ('type', 'run() returned %s in %s mode' % (type(out).__name__, mode))
             elif not text.startswith(out):
@@ -307,24 +323,33 @@ def run_case(task, steps, code, withexit, sw=None, Tcase=None):
     return obs, viol
 
 
+def env_short_done(obs):
+    return bool(obs.get('short_writes_done'))
+
+
 def run_task(task):
     acc = Acc()
     q = task['tier'] == 'quick'
     maxlen = 3 if q else 4
-    variants = [(0, False, None, None), (7, True, None, None)]
+    variants = [(0, False, None, None, False), (7, True, None, None, False)]
+    if task['table'] in ('dict-str', 'list-str-fn'):
+        # the first two writes of an answer are short writes (the rest has to be handed over as well)
+        variants += [(7, True, None, None, True)]
     if task['table'] in ('none', 'timeout-stop'):
         # a search window given through run()'s keyword arguments (only where no text pattern is listed: what a
         # window may legitimately hide from a pattern is C03's subject)
-        variants += [(0, False, 4, None), (7, True, 4, None)]
+        variants += [(0, False, 4, None, False), (7, True, 4, None, False)]
     if task['table'] in ('none', 'timeout-stop', 'dict-str'):
         # timeout exactly 0 ("just poll"): everything the child has written by then is still returned / answered
-        variants += [(7, True, None, 0)]
+        variants += [(7, True, None, 0, False)]
     for n in range(0, maxlen + 1):
         for steps in itertools.product(STEPS, repeat=n):
-            for code, withexit, sw, Tc in variants:
+            for code, withexit, sw, Tc, short in variants:
                 if 'H' in steps and steps.index('H') != len(steps) - 1 and not (steps[-1] == 'Z' and steps.index('H') == len(steps) - 2):
                     continue       # after detaching the child only waits and exits
-                obs, viol = run_case(task, steps, code, withexit, sw, Tc)
+                obs, viol = run_case(task, steps, code, withexit, sw, Tc, short)
+                if short and env_short_done(obs):
+                    acc.flags['answer_sent_in_short_writes'] += 1
                 if sw is not None:
                     acc.flags['search_window_kwarg'] += 1
                 if Tc == 0:
@@ -353,7 +378,7 @@ def run_task(task):
                 if viol:
                     acc.violation('%s:%s:%s' % (task['table'], task['mode'], viol[0]),
                                   'dialogue %r exit %d: %s' % (steps, code, viol[1]),
-                                  dict(task=task, steps=list(steps), code=code, withexit=withexit, sw=sw, Tc=Tc))
+                                  dict(task=task, steps=list(steps), code=code, withexit=withexit, sw=sw, Tc=Tc, short=short))
     if task['mode'] != 'bytes':
         # two runs one after the other in this process; the first child's output stops inside a character
         for first in (('EU',), ('E0', 'EU'), ('EU', 'Z')):
@@ -380,7 +405,7 @@ def replay(spec):
     task = spec['task']
     if spec.get('first'):
         run_case(task, tuple(spec['first']), 0, False)
-    obs, viol = run_case(task, tuple(spec['steps']), spec['code'], spec['withexit'], spec.get('sw'), spec.get('Tc'))
+    obs, viol = run_case(task, tuple(spec['steps']), spec['code'], spec['withexit'], spec.get('sw'), spec.get('Tc'), bool(spec.get('short')))
     out = {'observation': {k: repr(v) for k, v in obs.items()}, 'violation': None}
     if viol:
         out['violation'] = {'key': '%s:%s:%s%s' % (task['table'], task['mode'], 'after-truncated-run:' if spec.get('first') else '', viol[0]),
